@@ -211,13 +211,18 @@ class TokenList(Token):
     def flatten(self):
         """Generator yielding ungrouped tokens.
 
-        This method is recursively called for all child tokens.
+        The tree is walked with an explicit stack, so a statement of any
+        nesting depth can be flattened (and thus serialized).
         """
-        for token in self.tokens:
-            if token.is_group:
-                yield from token.flatten()
-            else:
+        stack = [iter(self.tokens)]
+        while stack:
+            for token in stack[-1]:
+                if token.is_group:
+                    stack.append(iter(token.tokens))
+                    break
                 yield token
+            else:
+                stack.pop()
 
     def get_sublists(self):
         for token in self.tokens:
